@@ -238,7 +238,8 @@ Proof. vm_compute. reflexivity. Qed.
 
 (* the per-line / per-definition loop with the apply_single gate *)
 Theorem C07_run_search_shape :
-  xshape tk_run_search sk_run_search = Some x_run_search.
+  xshape_guarded tk_run_search_full sk_run_search_full
+  = Some x_run_search_full.
 Proof. vm_compute. reflexivity. Qed.
 
 (* the flag updates and return values of apply_single (local variables, not
@@ -270,8 +271,8 @@ Qed.
    `constraints` property is the dict {c.id: c}: its keys, in insertion
    order, are the model's constraints_of (duplicates collapse) *)
 Theorem C07_searchdefbase_init_flows :
-  writes_table ["constraints_attr"] tk_searchdefbase_init
-  = w_searchdefbase_init /\
+  tables_same (writes_table ["constraints_attr"] tk_searchdefbase_init)
+              w_searchdefbase_init = true /\
   tk_searchdefbase_id = [SEv (Call "uuid4"); SExit] /\
   searchdef_id_cached = true.
 Proof. vm_compute. repeat split. Qed.
